@@ -439,6 +439,9 @@ def guard_call_atoms(fa: FuncAnalysis, at_expr: ast.AST) -> List[Tuple[ast.AST, 
         for t in tests:
             t2 = _S().visit(clone_ast(t))
             ast.fix_missing_locations(t2)
+            for x_ in ast.walk(t2):
+                for c_ in ast.iter_child_nodes(x_):
+                    c_._parent = x_  # type: ignore
             t2._parent = st  # type: ignore  # evaluated where the call stands
             out.append(norm_atom(t2, False))
     return out
@@ -606,6 +609,28 @@ def known_empty(atoms, name: str) -> Optional[bool]:
     return None
 
 
+def term_known_empty(fa: FuncAnalysis, atoms, term: Term) -> Optional[bool]:
+    """known_empty for any expression whose value is `term` (self.seen, finder.seen): True = empty, False = not empty"""
+    for a, pol in atoms:
+        le = len_eq(a)
+        subj = le[0] if le is not None else a
+        try:
+            if not fa.cfg.has_node(subj) or strip_sites(fa.term_of(subj)) != term:
+                continue
+        except AnalysisError:
+            continue
+        if le is None:
+            if isinstance(a, (ast.Name, ast.Attribute)):
+                return not pol
+            continue
+        _x, op, k = le
+        if (op == "Eq" and k == 0) or (op == "LtE" and k == 0) or (op == "Lt" and k == 1):
+            return pol
+        if (op == "NotEq" and k == 0) or (op == "Gt" and k == 0) or (op == "GtE" and k == 1):
+            return not pol
+    return None
+
+
 def new_call_parts(t: Term) -> Optional[Dict[str, Term]]:
     """fields of an ast.Call construction term."""
     if t[0] == "new" and t[1] == "Call":
@@ -720,14 +745,14 @@ def returns_ast(ctx: TermCtx, fi: FuncInfo) -> bool:
 
 
 # ---------------------------------------------------------------------------------- role-based discovery
-def view(model: Model, fi: Optional[FuncInfo], keep=()) -> Optional[FuncInfo]:
+def view(model: Model, fi: Optional[FuncInfo], keep=(), hoist_tests: bool = False) -> Optional[FuncInfo]:
     """the normalised view of a function (sa/normalise.py): private helpers it returns through / calls as procedures
     inlined, literal dispatch tables read as if-chains. Reports still name the real function."""
     if fi is None:
         return None
     from .normalise import unrolled
 
-    return unrolled(model, fi, frozenset(keep))
+    return unrolled(model, fi, frozenset(keep), hoist_tests)
 
 
 def private_callees(model: Model, fi: FuncInfo) -> List[FuncInfo]:
@@ -1058,6 +1083,15 @@ def carried_param_terms(model: Model, ctx: TermCtx, outer: FuncInfo, cls, method
     unchanged and only there, from a constructor argument to which outer passes that parameter."""
     out: List[Term] = [("free", pname)]
     init = cls.methods.get("__init__")
+    if init is not None and method.pos_params and init.pos_params:
+        # self.x = <the closure variable>, stored once (in __init__) and never written again
+        fi_c = ctx.analysis(init)
+        for n in own_nodes(init):
+            if isinstance(n, ast.Assign) and len(n.targets) == 1 and isinstance(n.targets[0], ast.Attribute) and isinstance(n.targets[0].value, ast.Name) and n.targets[0].value.id == init.pos_params[0] and strip_sites(fi_c.term_of(n.value)) == ("free", pname):
+                attr = n.targets[0].attr
+                others = [x for f_ in cls.methods.values() for x in own_nodes(f_) if isinstance(x, ast.Attribute) and x.attr == attr and isinstance(x.ctx, (ast.Store, ast.Del)) and x is not n.targets[0]]
+                if not others:
+                    out.append(("attr", ("param", method.pos_params[0]), attr))
     if init is None or len(init.pos_params) < 2 or not method.pos_params:
         return out
     fi_a = ctx.analysis(init)
